@@ -2,6 +2,7 @@ use vstd::prelude::*;
 use vstd::arithmetic::div_mod::*;
 use vstd::arithmetic::mul::*;
 use std::cmp;
+use vstd::std_specs::cmp::*;
 use std::ops::Deref;
 verus! {
 global size_of usize == 8;
@@ -23,6 +24,7 @@ pub mod bv {
         pub open spec fn bit_or_pad(&self, i: int) -> bool { if 0 <= i < self.bits().len() { self.bits()[i] } else { false } }
         #[verifier::external_body]
         pub fn len(&self) -> (r: u64) ensures r == self.bits().len() { unimplemented!() }
+        pub open spec fn block_len_spec(&self) -> nat { (self.bits().len() + 7) / 8 }
         #[verifier::external_body]
         pub fn block_len(&self) -> (r: usize) ensures r == (self.bits().len() + 7) / 8 { unimplemented!() }
         pub uninterp spec fn get_block_spec(&self, b: int) -> u8;
@@ -84,6 +86,7 @@ proof fn lemma_mask_popcount(byte: u8, j: u8)
     assert(((byte & m) >> 7u8) & 1 == (if j >= 7u8 { (byte >> 7u8) & 1 } else { 0u8 })) by (bit_vector) requires j < 8, m == ((2u16 << j) - 1u16) as u8;
 }
 
+#[derive(Copy, Clone, Eq, PartialEq)]
 pub enum SuperblockRank {
     First(u64),
     Some(u64),
@@ -101,8 +104,44 @@ impl Deref for SuperblockRank {
         }
     }
 }
+pub assume_specification [<cmp::Ordering as PartialEq>::eq] (a: &cmp::Ordering, b: &cmp::Ordering) -> (r: bool) ensures r == (*a == *b);
+impl PartialOrdSpecImpl for SuperblockRank {
+    open spec fn obeys_partial_cmp_spec() -> bool { false }
+    open spec fn partial_cmp_spec(&self, other: &Self) -> Option<cmp::Ordering> { None }
+}
+impl OrdSpecImpl for SuperblockRank {
+    open spec fn obeys_cmp_spec() -> bool { false }
+    open spec fn cmp_spec(&self, other: &Self) -> cmp::Ordering { cmp::Ordering::Equal }
+}
+impl PartialOrd for SuperblockRank {
+    fn partial_cmp(&self, other: &Self) -> Option<cmp::Ordering> {
+        Some(self.cmp(other))
+    }
+}
+
+impl Ord for SuperblockRank {
+    fn cmp(&self, other: &Self) -> (r: cmp::Ordering)
+        ensures r == (if self.key() < other.key() { cmp::Ordering::Less } else if self.key() == other.key() { cmp::Ordering::Equal } else { cmp::Ordering::Greater })
+    {
+        let cmp = (**self).cmp(&**other);
+        proof {
+            let a = self.value(); let b = other.value();
+            assert(cmp == (if a < b { cmp::Ordering::Less } else if a == b { cmp::Ordering::Equal } else { cmp::Ordering::Greater }));
+        }
+        if cmp == cmp::Ordering::Equal {
+            match (self, other) {
+                (SuperblockRank::First(_), SuperblockRank::Some(_)) => cmp::Ordering::Less,
+                (SuperblockRank::Some(_), SuperblockRank::First(_)) => cmp::Ordering::Greater,
+                _ => cmp,
+            }
+        } else {
+            cmp
+        }
+    }
+}
 impl SuperblockRank {
     pub open spec fn value(&self) -> u64 { match self { SuperblockRank::First(r) => *r, SuperblockRank::Some(r) => *r } }
+    pub open spec fn key(&self) -> int { 2 * self.value() + (if self is First { 0int } else { 1int }) }
 }
 
 pub struct RankSelect {
@@ -283,8 +322,9 @@ proof fn lemma_mod8(x: int, s: int)
 }
 fn superblocks(t: bool, n: usize, s: usize, bits: &BitVec<u8>) -> (res: Vec<SuperblockRank>)
     requires n == bits.bits().len(), n < 0x7fff_ffff_ffff, s >= 32, s % 8 == 0, s < 0x7fff_ffff,
-    ensures res.len() * s >= n,
+    ensures res.len() * s >= n, n >= 1 ==> (res.len() - 1) * s < n && res.len() >= 1,
         forall|q: int| 0 <= q < res.len() ==> (#[trigger] res[q]).value() == cnt(bits, t, 0, q * s),
+        forall|q: int| 0 <= q < res.len() ==> ((#[trigger] res[q]) is First <==> (q == 0 || res[q].value() != res[q - 1].value())),
 {
     let mut superblocks: Vec<SuperblockRank> = Vec::with_capacity(n / s + 1);
     let mut rank: u64 = 0;
@@ -297,6 +337,9 @@ fn superblocks(t: bool, n: usize, s: usize, bits: &BitVec<u8>) -> (res: Vec<Supe
             rank == cnt(bits, t, 0, 8 * (block as int)),
             superblocks.len() == nsb(block as int, s as int),
             forall|q: int| 0 <= q < superblocks.len() ==> (#[trigger] superblocks[q]).value() == cnt(bits, t, 0, q * s),
+            forall|q: int| 0 <= q < superblocks.len() ==> ((#[trigger] superblocks[q]) is First <==> (q == 0 || superblocks[q].value() != superblocks[q - 1].value())),
+            last_rank == (if superblocks.len() == 0 { None::<u64> } else { Some(superblocks[superblocks.len() - 1].value()) }),
+            block > 0 ==> (superblocks.len() - 1) * s <= 8 * (block - 1),
     {
         let b = bits.get_block(block);
         proof {
@@ -336,6 +379,227 @@ fn superblocks(t: bool, n: usize, s: usize, bits: &BitVec<u8>) -> (res: Vec<Supe
     }
 
     superblocks
+}
+
+pub assume_specification<T: Ord> [std::cmp::min::<T>] (a: T, b: T) -> (r: T)
+    ensures T::obeys_cmp_spec() ==> r == (if a.cmp_spec(&b) == core::cmp::Ordering::Greater { b } else { a });
+/// trusted: `[T]::binary_search` for T = SuperblockRank, phrased over `key` (the order the real `cmp` implements)
+pub assume_specification<T: Ord> [<[T]>::binary_search] (s: &[T], x: &T) -> (r: Result<usize, usize>)
+    requires forall|i: int, j: int| 0 <= i <= j < s@.len() ==> sort_key(s@[i]) <= sort_key(s@[j]),
+    ensures match r {
+        Ok(i) => i < s@.len() && sort_key(s@[i as int]) == sort_key(*x),
+        Err(i) => i <= s@.len() && (forall|k: int| 0 <= k < i ==> sort_key(s@[k]) < sort_key(*x)) && (forall|k: int| i <= k < s@.len() ==> sort_key(s@[k]) > sort_key(*x)),
+    };
+pub uninterp spec fn sort_key<T>(x: T) -> int;
+pub broadcast proof fn axiom_sort_key(x: SuperblockRank)
+    ensures #[trigger] sort_key(x) == x.key()
+{ admit(); }
+
+pub open spec fn tflag<F: Fn(u8) -> bool>(f: F) -> bool { f.ensures((1u8,), true) }
+pub open spec fn cntbyte(t: bool, b: u8) -> nat { if t { popcount8(b) } else { (8 - popcount8(b)) as nat } }
+/// superblock table for bit value t
+pub open spec fn table_ok(v: &BitVec<u8>, t: bool, sb: Seq<SuperblockRank>, s: int) -> bool {
+    &&& sb.len() >= 1 && sb.len() * s >= v.bits().len() && (sb.len() - 1) * s < v.bits().len()
+    &&& forall|q: int| 0 <= q < sb.len() ==> (#[trigger] sb[q]).value() == cnt(v, t, 0, q * s)
+    &&& forall|q: int| 0 <= q < sb.len() ==> ((#[trigger] sb[q]) is First <==> (q == 0 || sb[q].value() != sb[q - 1].value()))
+}
+
+proof fn lemma_cnt_mono(v: &BitVec<u8>, t: bool, lo: int, a: int, b: int)
+    requires lo <= a <= b
+    ensures cnt(v, t, lo, a) <= cnt(v, t, lo, b)
+{
+    lemma_cnt_split(v, t, lo, a, b);
+}
+/// keys of a well-formed table are non-decreasing
+proof fn lemma_table_sorted(v: &BitVec<u8>, t: bool, sb: Seq<SuperblockRank>, s: int, i: int, j: int)
+    requires table_ok(v, t, sb, s), s >= 1, 0 <= i <= j < sb.len()
+    ensures sb[i].key() <= sb[j].key()
+    decreases j - i
+{
+    if i < j {
+        assert(i * s <= j * s) by (nonlinear_arith) requires i <= j, s >= 1;
+        assert(0 <= i * s) by (nonlinear_arith) requires 0 <= i, s >= 1;
+        lemma_cnt_mono(v, t, 0, i * s, j * s);
+        if sb[i].value() == sb[j].value() && sb[j] is First {
+            // then value(j-1) != value(j), but value(i) <= value(j-1) <= value(j)
+            assert((j - 1) * s <= j * s && i * s <= (j - 1) * s) by (nonlinear_arith) requires i <= j - 1, s >= 1;
+            lemma_cnt_mono(v, t, 0, i * s, (j - 1) * s);
+            lemma_cnt_mono(v, t, 0, (j - 1) * s, j * s);
+            assert(sb[j - 1].value() == cnt(v, t, 0, (j - 1) * s));
+        }
+    }
+}
+/// every t-bit counted in [lo, hi) beyond the vector end is a padding zero; positions < n are real
+proof fn lemma_cnt_prefix_total(v: &BitVec<u8>, t: bool, hi: int)
+    requires hi >= v.bits().len(), t
+    ensures cnt(v, t, 0, hi) == cnt(v, t, 0, v.bits().len() as int)
+    decreases hi - v.bits().len()
+{
+    if hi > v.bits().len() { lemma_cnt_prefix_total(v, t, hi - 1); }
+}
+
+pub open spec fn bs_ok(sb: Seq<SuperblockRank>, x: SuperblockRank, i: int) -> bool { 0 <= i < sb.len() && sort_key(sb[i]) == sort_key(x) }
+pub open spec fn bs_err(sb: Seq<SuperblockRank>, x: SuperblockRank, i: int) -> bool {
+    0 <= i <= sb.len() && (forall|k: int| 0 <= k < i ==> sort_key(#[trigger] sb[k]) < sort_key(x)) && (forall|k: int| i <= k < sb.len() ==> sort_key(#[trigger] sb[k]) > sort_key(x))
+}
+proof fn lemma_bs_result(v: &BitVec<u8>, t: bool, sb: Seq<SuperblockRank>, s: int, j: u64, i: int)
+    requires table_ok(v, t, sb, s), s >= 1, j >= 1, bs_ok(sb, SuperblockRank::First(j), i) || bs_err(sb, SuperblockRank::First(j), i)
+    ensures 1 <= i <= sb.len(),
+        forall|k: int| 0 <= k < i ==> (#[trigger] sb[k]).value() < j,
+        forall|k: int| i <= k < sb.len() ==> (#[trigger] sb[k]).value() >= j,
+{
+    broadcast use axiom_sort_key;
+    let x = SuperblockRank::First(j);
+    assert(x.key() == 2 * j);
+    assert(sb[0].value() == cnt(v, t, 0, 0 * s));
+    assert(0 * s == 0) by (nonlinear_arith);
+    assert(sb[0].key() <= 1);
+    if bs_ok(sb, x, i) {
+            // entries before an exact hit are strictly smaller in key (sortedness), entries after are >=
+            assert forall|k: int| 0 <= k < i implies (#[trigger] sb[k]).value() < j by {
+                lemma_table_sorted(v, t, sb, s, k, i);
+                // key(k) <= key(i) == 2j; equality impossible: two First entries with the same value
+                if sb[k].key() == 2 * j {
+                    // sb[k] is First(j) and sb[i] is First(j), k < i: but First means value differs from predecessor
+                    assert(sb[i] is First);
+                    assert(i * s >= (i - 1) * s && (i - 1) * s >= k * s && k * s >= 0) by (nonlinear_arith) requires 0 <= k <= i - 1, s >= 1;
+                    lemma_cnt_mono(v, t, 0, k * s, (i - 1) * s);
+                    lemma_cnt_mono(v, t, 0, (i - 1) * s, i * s);
+                    assert(sb[i - 1].value() == cnt(v, t, 0, (i - 1) * s));
+                }
+            }
+            assert forall|k: int| i <= k < sb.len() implies (#[trigger] sb[k]).value() >= j by {
+                lemma_table_sorted(v, t, sb, s, i, k);
+            }
+    } else {
+            assert forall|k: int| 0 <= k < i implies (#[trigger] sb[k]).value() < j by { assert(sort_key(sb[k]) < 2 * j); }
+            assert forall|k: int| i <= k < sb.len() implies (#[trigger] sb[k]).value() >= j by { assert(sort_key(sb[k]) > 2 * j); }
+    }
+}
+
+proof fn lemma_table_sorted_all(v: &BitVec<u8>, t: bool, sb: Seq<SuperblockRank>, s: int)
+    requires table_ok(v, t, sb, s), s >= 1
+    ensures forall|a: int, b: int| 0 <= a <= b < sb.len() ==> sort_key(sb[a]) <= sort_key(sb[b])
+{
+    assert forall|a: int, b: int| 0 <= a <= b < sb.len() implies sort_key(sb[a]) <= sort_key(sb[b]) by {
+        lemma_table_sorted(v, t, sb, s, a, b);
+        axiom_sort_key(sb[a]); axiom_sort_key(sb[b]);
+    }
+}
+/// one more bit: cnt over [0, p+1) from cnt over [0, p)
+proof fn lemma_cnt_step(v: &BitVec<u8>, t: bool, p: int)
+    requires p >= 0
+    ensures cnt(v, t, 0, p + 1) == cnt(v, t, 0, p) + (if v.bit_or_pad(p) == t { 1nat } else { 0nat })
+{
+}
+proof fn lemma_bit_test(b: u8, i: u8)
+    requires i < 8
+    ensures ((b & (1u8 << i)) != 0) == (bit8(b, i as int) == 1)
+{
+    assert(((b & (1u8 << i)) != 0) == ((b >> i) & 1 == 1)) by (bit_vector) requires i < 8;
+}
+impl RankSelect {
+    fn select_x<F: Fn(u8) -> bool, C: Fn(u8) -> u32>(
+        &self,
+        j: u64,
+        superblocks: &[SuperblockRank],
+        is_match: F,
+        count_all: C,
+    ) -> (r: Option<u64>)
+        requires self.wf(), table_ok(&self.bits, tflag(is_match), superblocks@, self.s as int),
+            forall|b: u8| #[trigger] count_all.requires((b,)), forall|b: u8, r: u32| #[trigger] count_all.ensures((b,), r) ==> r == cntbyte(tflag(is_match), b),
+            forall|x: u8| #[trigger] is_match.requires((x,)), forall|x: u8, r: bool| #[trigger] is_match.ensures((x,), r) ==> r == ((x != 0) == tflag(is_match)),
+        ensures match r {
+            Some(p) => p < self.view().len() && self.view()[p as int] == tflag(is_match) && cnt(&self.bits, tflag(is_match), 0, p as int + 1) == j,
+            None => j == 0 || j > cnt(&self.bits, tflag(is_match), 0, self.view().len() as int),
+        }
+    {
+        if j == 0 {
+            return None;
+        }
+        let ghost t = tflag(is_match); let ghost sbs = superblocks@; let ghost ss = self.s as int; let ghost n = self.n as int;
+        proof { lemma_table_sorted_all(&self.bits, t, sbs, ss); }
+        let mut superblock = match superblocks.binary_search(&SuperblockRank::First(j)) {
+            Ok(i) | Err(i) => i, // superblock with same rank exists
+        };
+        proof {
+            assert(bs_ok(sbs, SuperblockRank::First(j), superblock as int) || bs_err(sbs, SuperblockRank::First(j), superblock as int));
+            lemma_bs_result(&self.bits, t, sbs, ss, j, superblock as int);
+        }
+        superblock = superblock.saturating_sub(1);
+        let mut rank = *superblocks[superblock];
+        let ghost sb0 = superblock as int;
+        proof {
+            assert(rank == cnt(&self.bits, t, 0, sb0 * ss));
+            assert(sb0 * ss == 8 * (sb0 * (self.k as int) * 4)) by (nonlinear_arith) requires ss == self.k * 32;
+            assert(sb0 * ss >= 0) by (nonlinear_arith) requires sb0 >= 0, ss >= 1;
+            assert(sb0 * ss <= (sbs.len() - 1) * ss) by (nonlinear_arith) requires sb0 <= sbs.len() - 1, ss >= 1;
+        }
+
+        let first_block = superblock * self.s / 8;
+        proof { assert(first_block == sb0 * (self.k as int) * 4); assert(8 * first_block == sb0 * ss); assert(8 * first_block < n); assert(first_block < self.bits.block_len_spec()); }
+        for block in first_block..cmp::min(first_block + self.s / 8, self.bits.block_len())
+            invariant self.wf(), t == tflag(is_match), n == self.n, n == self.bits.bits().len(), ss == self.s, j >= 1,
+                table_ok(&self.bits, t, sbs, ss), 8 * first_block == sb0 * ss, 0 <= sb0 < sbs.len(),
+                first_block <= block,
+                (rank == cnt(&self.bits, t, 0, 8 * (block as int)) && rank < j) || (8 * (block as int) > n && cnt(&self.bits, t, 0, n) < j),
+                forall|b: u8| #[trigger] count_all.requires((b,)), forall|b: u8, r: u32| #[trigger] count_all.ensures((b,), r) ==> r == cntbyte(t, b),
+                forall|x: u8| #[trigger] is_match.requires((x,)), forall|x: u8, r: bool| #[trigger] is_match.ensures((x,), r) ==> r == ((x != 0) == t),
+        {
+            let b = self.bits.get_block(block);
+            let p = count_all(b) as u64;
+            proof {
+                lemma_block_cnt(&self.bits, t, block as int, b);
+                lemma_cnt_split(&self.bits, t, 0, 8 * (block as int), 8 * (block as int) + 8);
+                lemma_cnt_bound(&self.bits, t, 0, 8 * (block as int));
+            }
+            if rank + p >= j {
+                let mut bit = 0b1;
+                let max_bit = cmp::min(8, self.bits.len() - block as u64 * 8);
+                let ghost r0 = rank;
+                proof { assert(1u8 << 0u8 == 1u8) by (bit_vector); lemma_cnt_bound(&self.bits, t, 0, 8 * (block as int)); }
+                for i in 0..max_bit
+                    invariant self.wf(), t == tflag(is_match), n == self.n, n == self.bits.bits().len(), j >= 1,
+                        max_bit <= 8, 8 * (block as int) + max_bit <= n, block < (n + 7) / 8,
+                        bit == 1u8 << (i as u8) || i == 8,
+                        rank == cnt(&self.bits, t, 0, 8 * (block as int) + i), rank < j,
+                        forall|k: int| 0 <= k < 8 ==> (#[trigger] bit8(b, k) == 1) == self.bits.bit_or_pad(8 * (block as int) + k),
+                        forall|x: u8| #[trigger] is_match.requires((x,)), forall|x: u8, r: bool| #[trigger] is_match.ensures((x,), r) ==> r == ((x != 0) == t),
+                {
+                    proof {
+                        lemma_bit_test(b, i as u8);
+                        lemma_cnt_step(&self.bits, t, 8 * (block as int) + i);
+                        lemma_cnt_bound(&self.bits, t, 0, 8 * (block as int) + i);
+                        assert(bit8(b, i as int) == 1 <==> self.bits.bit_or_pad(8 * (block as int) + i));
+                    }
+                    rank += is_match(b & bit) as u64;
+                    if rank == j {
+                        return Some(block as u64 * 8 + i);
+                    }
+                    proof { let ii = i as u8; if ii < 7 { assert((1u8 << ii) << 1u8 == 1u8 << ((ii + 1) as u8)) by (bit_vector) requires ii < 7; } }
+                    bit <<= 1;
+                }
+            }
+            proof {
+                // if the inner scan ran over a full byte without finding the j-th match we have a contradiction;
+                // otherwise this was the partial last byte and cnt(0, n) < j is now known
+                lemma_cnt_bound(&self.bits, t, 0, 8 * (block as int) + 8);
+            }
+            rank += p;
+        }
+        proof {
+            let be = if first_block + self.s / 8 <= self.bits.block_len_spec() { (first_block + self.s / 8) as int } else { self.bits.block_len_spec() as int };
+            if 8 * be >= n { lemma_cnt_mono(&self.bits, t, 0, n, 8 * be); }
+            else {
+                // a further superblock exists and already holds >= j
+                assert((sb0 + 1) * ss == sb0 * ss + ss) by (nonlinear_arith);
+                assert(sbs.len() > sb0 + 1) by { if sbs.len() <= sb0 + 1 { assert(sbs.len() * ss <= (sb0 + 1) * ss) by (nonlinear_arith) requires sbs.len() <= sb0 + 1, ss >= 1; } }
+                assert(sbs[sb0 + 1].value() == cnt(&self.bits, t, 0, (sb0 + 1) * ss));
+            }
+        }
+
+        None
+    }
 }
 }
 fn main() {}
